@@ -104,7 +104,9 @@ def sq_loops(frames, L, types, qint):
     """S_ab per wave vector by explicit loops over frames, wave vectors and particles (no vectorisation):
     rho_a(q) = sum_{j in a} exp(-i q.r_j), S_ab = <Re[rho_a(q) rho_b(-q)]>_frames / sqrt(N_a N_b), S = <|rho|^2>/N."""
     L = [float(x) for x in L]
-    types = [int(t) for t in types]
+    # one species list for all frames, or one per frame (same composition, different assignment to ids)
+    tframes = [[int(t) for t in tf] for tf in types] if np.ndim(types[0]) > 0 else [[int(t) for t in types]] * len(frames)
+    types = tframes[0]
     tl = sorted(set(types))
     K = len(tl)
     N = len(types)
@@ -118,7 +120,7 @@ def sq_loops(frames, L, types, qint):
     for k, n in enumerate(qint):
         q = [2.0 * math.pi * n[a] / L[a] for a in range(len(L))]
         qn.append(math.sqrt(sum(x * x for x in q)))
-        for pos in frames:
+        for pos, types in zip(frames, tframes):
             rho = {t: 0j for t in tl}
             rho_m = {t: 0j for t in tl}  # density mode at -q
             for j, r in enumerate(pos):
